@@ -14,13 +14,16 @@ import code:
                  back with `store_filter=None` (the matching configuration);
     'alias'      equals one of the spellings the *active* StoreFilter decodes to NaN / None /
                  +-inf ('nan', 'NaN', 'NULL', '#N/A', 'None', 'inf', '-inf', ...);
+    'blank'      spaces only: readable as a str next to a plain text, but it cannot decide a
+                 column's type (a reader may take it for padding);
     'lookalike'  Python's own bool-word / int() / float() / complex() accept it (after
-                 stripping), e.g. '12', ' 7', '1.5', '1e5', '1_000', 'True', 'infinity', '1j';
+                 stripping), or it is a prefixed int / hex-float literal, e.g. '12', ' 7', '1.5', '1e5',
+                 '1_000', 'True', 'infinity', '1j', '0x1F';
     'plain'      everything else: a text that can only be a str.
 * a str **cell column** (data column or one index depth) is in scope iff it has no
   control / alias cell, has an 'empty' cell only under the no-missing rule above, and at
-  least one 'plain' cell (the column's type is then decidable as str; 'lookalike' cells
-  next to a plain one are unambiguous *in that column*).  A column whose every text is
+  least one 'plain' cell (the column's type is then decidable as str; 'lookalike' and
+  'blank' cells next to a plain one are unambiguous *in that column*).  A column whose every text is
   empty carries no type information: for str columns it is out of scope, for missing
   values (NaN) it stays in scope because the statement names missing values explicitly.
 * a **header label or axis name** stands alone in its row, so every str label / name must
@@ -43,7 +46,7 @@ def _parses(t):
     s = t.strip()
     if s.upper() in _BOOL_WORDS:
         return True
-    for fn in (int, float, complex):
+    for fn in (int, float, complex, _int_literal, _hex_float):
         try:
             fn(s)
             return True
@@ -52,12 +55,24 @@ def _parses(t):
     return False
 
 
+def _int_literal(s):
+    return int(s, 0)  # 0x1F, 0o17, 0b101
+
+
+def _hex_float(s):
+    if s.lstrip('+-')[:2].lower() != '0x':
+        raise ValueError(s)
+    return float.fromhex(s)
+
+
 def text_class(t, aliases=DEFAULT_ALIASES):
     if t == '':
         return 'empty'
     for ch in t:
         if ch != ' ' and (ch.isspace() or not ch.isprintable()):
             return 'control'
+    if t.strip(' ') == '':
+        return 'blank'
     if t in aliases:
         return 'alias'
     if _parses(t):
@@ -97,10 +112,10 @@ def label_scope(label, aliases):
 PLAIN = ['a', 'b', 'ab', 'abc', 'x y', ' x', 'x ', ' ', 'a,b', ',', ',,', 'q"t', '"', '""', 'a"', '"a"', '"a', ' "a" ',
          'a;b', ';', 'a|b', '|', "it's", "'", "'a'", "a''b", 'A', 'hello', 'c d', 'zz', 'k1', '1a', '1-2', '1,5', '12 ab',
          'x12', '#c', '#', 'é', '日本', 'a b c', '","', '1 2', '--', '.', '-', '+', 'e5', 'Tru', 'no', 'yes', 'a=b', '\\',
-         'a\\b', '\\"', 'N/A', 'na', 'null', 'none', 'a much longer text, with "quotes" and; more', '0x1F', '1.2.3',
+         'a\\b', '\\"', 'N/A', 'na', 'null', 'none', 'a much longer text, with "quotes" and; more', '1.2.3',
          '2020-01-01', '12:30', '$5', '5%', '(1)', '1/2', 'True!', 'x,y;z|w']
 LOOKALIKE = ['12', '1.5', '-3', '1e5', 'True', 'False', 'true', 'TRUE', ' 7', '7 ', '0', '1', '1_000', 'infinity', '1j', '007',
-             '+4', '.5', '5.', '-0.0', '1E-3', 'Infinity', '9223372036854775808', '-inf ']
+             '+4', '.5', '5.', '-0.0', '1E-3', 'Infinity', '9223372036854775808', '-inf ', '0x1F']
 ALIASES = ['nan', 'NaN', 'NAN', 'NULL', '#N/A', 'None', 'inf', '-inf']
 
 INTS64 = [0, 1, -1, 2, 7, 12, -40, 100, 1000000, -123456789, 2**31, 2**53 + 1, -(2**53) - 1, 2**63 - 1, -2**63, 2**62]
